@@ -727,6 +727,7 @@ class Rewriter:
             self.fired('R23:for-over-iterator')
         # raw pointer primitives
         b = self.map_calls(b, r'(?<![\w.:])ptr::write', lambda m_, a: 'buf_write(hs, %s)' % ', '.join(a), 'R22:ptr-write')
+        b = self.sub('R22:rawvec-read', r'(?<![\w.:])ptr::read\(&(self(?:__)?)\.buf\)', r'rawvec_read(&\1.buf)', b)
         b = self.map_calls(b, r'(?<![\w.:])ptr::read', lambda m_, a: 'buf_read(hs, %s)' % ', '.join(a), 'R22:ptr-read')
         b = self.map_calls(b, r'(?<![\w.:])ptr::replace', lambda m_, a: 'buf_replace(hs, %s)' % ', '.join(a), 'R22:ptr-replace')
         b = self.map_calls(b, r'(?<![\w.:])ptr::copy_nonoverlapping', lambda m_, a: 'buf_copy_nonoverlapping(hs, %s)' % ', '.join(a), 'R22:ptr-copy_nonoverlapping')
@@ -828,6 +829,7 @@ class Rewriter:
         b = self.sub('R22:full-range-index', r'(?m)^(\s*)&(?:mut )?self\[\.\.\]\s*$', r'\1slice_index_full(hs, self.deref(hs))', b)
         b = self.sub('R22:model-type', r'(?<![\w:])Vec::new_in\(', 'VecM::new_in(hs, ', b)
         b = self.sub('R22:use-stmt', r'(?m)^\s*use crate::boxed::Box;\s*$', '', b)
+        b = self.sub('R22:rawvec-into-box', r'\b(\w+)\.into_box\(\)', r'RawVecM::into_box(hs, \1)', b)
         b = self.sub('R22:box-from-raw', r"let (\w+): Box<'bump, \[T\]> = Box::from_raw\((\w+)\);", r'let \1: BoxSliceM = box_slice_from_raw(hs, \2);', b)
         b = self.sub('R22:model-type', r'(?<![\w:])Vec::from_iter_in\(', 'VecM::from_iter_in(hs, ', b)
         b = self.sub('R22:model-type', r'(?<![\w:])RawVec::new_in\(', 'RawVecM::new_in(hs, ', b)
@@ -853,6 +855,10 @@ class Rewriter:
                      r'{ let mut sp__ = self.vec.splice(hs, \1, str_bytes_iter(hs, \2)); sp__.drop(hs, ds, &mut self.vec); }', b)
         b = self.sub('R25:last-char', r'\bself\.chars\(\)\.rev\(\)\.next\(\)', 'self.last_char(hs)', b)
         b = self.sub('R25:slice-chars', r'\bself\[(\w+)\.\.(\w+)\]\.chars\(\)', r'self.slice_chars(hs, \1, \2)', b)
+        b = self.sub('R25:empty-chars', r'""\.chars\(\)', 'empty_chars()', b)      # the chars of the empty literal: nothing to decode
+        # `s[a..]` is `s[a..s.len()]`, `s[..b]` is `s[0..b]` (core's RangeFrom / RangeTo indexing of str)
+        b = self.sub('R25:slice-chars', r'\bself\[(\w+)\.\.\]\.chars\(\)', r'self.slice_chars(hs, \1, self.len())', b)
+        b = self.sub('R25:slice-chars', r'\bself\[\.\.(\w+)\]\.chars\(\)', r'self.slice_chars(hs, 0, \1)', b)
         b = self.sub('R25:is_char_boundary', r'\bself\.is_char_boundary\(', 'self.is_char_boundary(hs, ', b)
         b = self.sub('R25:len_utf8', r'\b(\w+)\.len_utf8\(\)', r'char_len_utf8(\1)', b)
         b = self.sub('R25:decode_utf16', r'\bdecode_utf16\(v\.iter\(\)\.cloned\(\)\)', 'decode_utf16_model(&v)', b)
@@ -1114,6 +1120,10 @@ class Rewriter:
         # `res?` converts crate::AllocErr through `impl From<AllocErr> for CollectionAllocErr` (a constant function)
         # constructors / shrink_to_fit
         b = self.sub('R20:dangling', r'\bNonNull::<T>::dangling\(\)|\bNonNull::dangling\(\)', 'dangling_T()', b)
+        b = self.sub('R20:use-stmt', r'(?m)^\s*use crate::boxed::Box;\s*$', '', b)
+        b = self.sub('R20:raw-slice', r'\bcore::slice::from_raw_parts_mut\(self\.ptr\(\), ', 'raw_slice(self.ptr, ', b)
+        b = self.sub('R20:box-from-raw', r"let (\w+): Box<'a, \[T\]> = Box::from_raw\((\w+)\);", r'let \1: BoxSliceG = box_slice_from_raw(\2);', b)
+        b = self.sub('R20:forget', r'\bmem::forget\(self\)', 'rawvec_forget(self)', b)
         b = self.sub('R20:nonnull-new-unchecked', r'\bNonNull::new_unchecked\(', 'nonnull_new_unchecked(', b)
         b = self.map_calls(b, r'\ba\.alloc_zeroed', lambda m_, a: 'arena_alloc_zeroed(ar, %s)' % ', '.join(a), 'R20:arena-alloc-zeroed')
         b = self.sub('R20:result-unwrap', r'(Layout::from_size_align\([^;]*?\))\.unwrap\(\)', r'res_unwrap(\1)', b)
